@@ -21,7 +21,8 @@ Record vicase_t := {
   vio_observations : list (Q * list nat);
   vio_time : Q; vio_events : nat; vio_steps : nat; vio_ok : bool }.
 
-(* tie A: the table read off the live objects of this run is the shipped class's, for some pRemove *)
+(* tie A: the table read off the live objects of this run is the shipped class's, for some pRemove (possibly with the
+   harness' posted removal of the seeds) *)
 Definition spec_eqb (a b : Loci.spec) : bool :=
   match a, b with
   | NodeLocus c, NodeLocus c' => Z.eqb c c'
@@ -41,6 +42,10 @@ Definition vi_shipped (vm : vimodel) : bool :=
   match vim_events vm with
   | [ev] => list_eqb spec_eqb (vim_specs vm) (vim_specs (sir_vi 0)) && ce_elem ev && Nat.eqb (ce_locus ev) 1
             && hkind_eqb (ce_kind ev) (HNode 2) && Nat.eqb (vim_si vm) 0 && hkind_eqb (vim_infect vm) (HLeft 1 true None)
+            && match vim_seed_post vm with
+               | None => true
+               | Some (c, T, k) => Z.eqb c 1 && Nat.eqb k 0      (* the posted-removal subclass: seeds, remove *)
+               end
   | _ => false
   end.
 
